@@ -339,6 +339,24 @@ async fn scale_case(run: usize, kind: &str, size: usize, split_at: usize, out: &
         let first = encode_argv(&cmds[0].1).len();
         let cut = first + split_at; // inside the command that follows the large one
         (cfg, cmds, vec![wire[..cut].to_vec(), wire[cut..].to_vec()])
+    } else if kind == "bigreply" {
+        // a stored value of 64 KiB and more is READ BACK between small commands of the same read: the replies keep the order of
+        // the commands however large one of them is (the value travels in the abstract command too: TLC computes the replies)
+        let cfg = ConnectionConfig { max_buffer_size: 64 << 20, read_buffer_size: 8192, min_pipeline_buffer: 60, batch_threshold: 2 };
+        let big: Vec<u8> = (0..size).map(|i| b'a' + (i % 26) as u8).collect();
+        let cmds = vec![(json!({"op": "SET", "k": "kbig", "v": big, "ex": -1, "px": -1, "nx": false, "xx": false, "get": false, "keepttl": false}), vec![b("SET"), b("kbig"), big.clone()]),
+                        ping(), get("kbig"), ping(), get("k1"), get("kbig"), ping()];
+        let mut wire = Vec::new();
+        for (_, a) in &cmds {
+            wire.extend(encode_argv(a));
+        }
+        let first = encode_argv(&cmds[0].1).len();
+        let segs = match split_at {
+            0 => vec![wire.clone()],
+            1 => vec![wire[..first].to_vec(), wire[first..].to_vec()],
+            _ => vec![wire[..first + 20].to_vec(), wire[first + 20..].to_vec()],
+        };
+        (cfg, cmds, segs)
     } else {
         let cfg = ConnectionConfig { max_buffer_size: 64 << 20, read_buffer_size: 1 << 20, min_pipeline_buffer: 60, batch_threshold: 2 };
         let mut cmds: Vec<(Value, Argv)> = (0..size).map(|_| ping()).collect();
@@ -550,6 +568,15 @@ pub fn main(args: &[String]) -> i32 {
                 for split_at in [1usize, 4, 9, 13] {
                     run += 1;
                     let r = catch(|| rt.block_on(scale_case(run, "large", size, split_at, &mut out)));
+                    if let Err(p) = r {
+                        out.emit(&json!({"t": "pipe", "run": run, "panic": p, "cmds": [], "replies": [], "malformed": false, "bad_at": 0, "undecoded": 0, "s": []}));
+                    }
+                }
+            }
+            for size in if thorough { vec![65_535usize, 65_536, 70_000, 140_000, 1_100_000] } else { vec![65_536usize, 70_000] } {
+                for split_at in [0usize, 1, 2] {
+                    run += 1;
+                    let r = catch(|| rt.block_on(scale_case(run, "bigreply", size, split_at, &mut out)));
                     if let Err(p) = r {
                         out.emit(&json!({"t": "pipe", "run": run, "panic": p, "cmds": [], "replies": [], "malformed": false, "bad_at": 0, "undecoded": 0, "s": []}));
                     }
